@@ -125,6 +125,8 @@ pub fn build_app(cfg: &Cfg, extra: &dyn Fn(&mut App)) -> App {
             }),
     ));
     app.insert_resource(TimeUpdateStrategy::ManualDuration(Duration::ZERO));
+    // virtual time clamps a frame's delta to 250 ms by default; the drivers step time in larger units
+    app.world_mut().resource_mut::<Time<Virtual>>().set_max_delta(Duration::from_secs(3600));
     app.replicate::<A>()
         .replicate::<B>()
         .replicate_periodic::<P>(2)
